@@ -32,8 +32,13 @@ else:
     HARNESS = os.path.join(CACHE, "harness_" + _tag)
     TARGET = os.path.join(CACHE, "target_" + _tag)
 BIN = os.path.join(TARGET, "debug")
-EVIDENCE = os.path.join(VERIF, "evidence")
-REPLAYS = os.path.join(VERIF, "replays")
+if REPO == "/repo":
+    EVIDENCE = os.path.join(VERIF, "evidence")
+    REPLAYS = os.path.join(VERIF, "replays")
+else:
+    # a run against a scratch copy must never rewrite the committed evidence of /repo
+    EVIDENCE = os.path.join(CACHE, "evidence_" + _tag)
+    REPLAYS = os.path.join(CACHE, "replays_" + _tag)
 SCRATCH_ROOT = os.path.join(CACHE, "scratch")
 NCPU = os.cpu_count() or 4
 
